@@ -513,6 +513,54 @@ def gen_focus(tier, rng):
                 T.append(("replace", [s, p, r], "replacement"))
                 for fl in ("", "i", "x", None, "q", n(1), True):
                     T.append(("replace", [s, p, r, fl], "flags"))
+    # ---- size boundaries: long arguments (an implementation may switch algorithm with the size: a hash index beyond N items,
+    # a byte fast path for long ASCII strings, chunked processing); every list / string function over lists and strings whose
+    # length sits on and next to powers of two, all-strings / all-numbers / mixed, with duplicates and in no particular order
+    sizes = [16, 17, 32, 33, 65, 130] if tier == "quick" else [15, 16, 17, 31, 32, 33, 34, 63, 64, 65, 100, 127, 128, 129, 130, 255, 256, 257, 300]
+    for L in sizes:
+        kinds = []
+        for rep_ in range(1 if tier == "quick" else 3):
+            m = rng.choice([3, L // 2 + 1, L - 1, L + 5])
+            order = list(range(L))
+            rng.shuffle(order)
+            kinds.append(["s%d" % (i % m) for i in order])
+            kinds.append([n(i % m) for i in order])
+            kinds.append([("s%d" % (i % m)) if i % 3 else n(i % m) for i in order])
+            kinds.append([rng.choice(["a", "b", "é", "\U0001F600"]) + str(i % m) for i in order])
+        for lst in kinds:
+            other = rng.choice(kinds)
+            for fname in ("distinct values", "reverse", "flatten", "count", "mode", "min", "max"):
+                T.append((fname, [lst], "long"))
+            if all(isinstance(x, D) for x in lst):
+                for fname in ("sum", "mean", "median", "stddev"):
+                    T.append((fname, [lst], "long"))
+            T.append(("union", [lst, other], "long"))
+            T.append(("union", [lst[: L // 2], lst[L // 2 :]], "long"))
+            T.append(("concatenate", [lst, other], "long"))
+            T.append(("append", [lst, lst[0], None], "long"))
+            T.append(("sort", [lst, FN_LT], "long"))
+            T.append(("sort", [lst, FN_GT], "long"))
+            for e in (lst[0], lst[-1], lst[L // 2], "nosuch", None):
+                T.append(("index of", [lst, e], "long"))
+                T.append(("list contains", [lst, e], "long"))
+            for p_ in (1, 2, L // 2, L - 1, L, L + 1, -1, -L, -(L + 1)):
+                T.append(("remove", [lst, n(p_)], "long"))
+                T.append(("insert before", [lst, n(p_), "new"], "long"))
+                T.append(("sublist", [lst, n(p_)], "long"))
+                T.append(("sublist", [lst, n(p_), n(L // 3)], "long"))
+        for alpha in ("ab", "aé", "a\U0001F600,", "x, "):
+            st = "".join(alpha[i % len(alpha)] for i in range(L))
+            T.append(("string length", [st], "long"))
+            for p_ in (1, 2, L // 2, L - 1, L, L + 1, -1, -L, -(L + 1)):
+                T.append(("substring", [st, n(p_)], "long"))
+                T.append(("substring", [st, n(p_), n(L // 3)], "long"))
+            for m_ in (st[:2], st[-2:], st[L // 2 : L // 2 + 3], "zz", st):
+                for fname in ("contains", "starts with", "ends with", "substring before", "substring after"):
+                    T.append((fname, [st, m_], "long"))
+            T.append(("split", [st, ","], "long"))
+            T.append(("replace", [st, "a", "[$0]"], "long"))
+            T.append(("matches", [st, "^[^z]+$"], "long"))
+            T.append(("string", [st], "long"))
     if tier == "thorough":
         for _ in range(60000):
             p = random_pattern(rng)
